@@ -17,7 +17,34 @@ pub fn calibrate() -> Value {
     let p = temp_file_name("calib");
     let log = hooks::stop_atomic_log();
     let ops: Vec<String> = log.iter().map(|e| match e.op { "cas_ok" | "cas_fail" => "cas".to_string(), o => o.to_string() }).collect();
-    json!({"program": ops, "path": p.to_string_lossy(), "count": parse_count(&p)})
+    // How many compare-and-swap attempts does the code make when every attempt is made to fail?
+    // (0 = it keeps retrying until it succeeds.)
+    let mut max_attempts = 0usize;
+    if ops.iter().any(|o| o == "cas") {
+        let budget = Arc::new(Mutex::new(6usize));
+        let b2 = budget.clone();
+        hooks::set_gate(Some(Arc::new(move |tag: usize, op: &'static str| {
+            if tag != 1 || op != "cas" { return; }
+            let mut left = b2.lock().unwrap();
+            if *left == 0 { return; }
+            *left -= 1;
+            drop(left);
+            hooks::set_thread_tag(99);
+            let _ = temp_file_name("interfere");     // another caller gets in between
+            hooks::set_thread_tag(1);
+        })));
+        hooks::set_thread_tag(1);
+        hooks::start_atomic_log();
+        let _ = temp_file_name("calib2");
+        let log = hooks::stop_atomic_log();
+        hooks::set_gate(None);
+        hooks::set_thread_tag(0);
+        let mine: Vec<&str> = log.iter().filter(|e| e.thread == 1).map(|e| e.op).collect();
+        let fails = mine.iter().filter(|o| **o == "cas_fail").count();
+        let succeeded = mine.iter().any(|o| *o == "cas_ok");
+        if !succeeded { max_attempts = fails; }
+    }
+    json!({"program": ops, "max_attempts": max_attempts, "path": p.to_string_lossy(), "count": parse_count(&p)})
 }
 
 pub fn record_temp(seed: u64, thorough: bool, path: &str) -> Value {
@@ -38,11 +65,25 @@ pub fn record_temp(seed: u64, thorough: bool, path: &str) -> Value {
             v
         }));
     }
-    let results: Vec<Vec<(String, String)>> = handles.into_iter().map(|h| h.join().unwrap()).collect();
+    let mut results: Vec<Vec<(String, String)>> = handles.into_iter().map(|h| h.join().unwrap()).collect();
+    // the name format around powers of two: move the counter and take a few names on each side
+    hooks::set_thread_tag(threads);
+    let mut extra: Vec<(String, String)> = Vec::new();
+    for shift in [16u32, 32, 48] {
+        hooks::force_store_all((1usize << shift) - 3);
+        for _ in 0..6 { extra.push(("part_0_x0".to_string(), temp_file_name("part_0_x0").to_string_lossy().to_string())); }
+    }
+    results.push(extra);
     let log = hooks::stop_atomic_log();
     let mut out = TraceOut::new();
     out.push(json!({"e": "start", "start": start, "threads": threads, "calls": calls}));
-    for e in log.iter() { out.push(json!({"e": "atomic", "thread": e.thread, "op": e.op, "old": e.old, "new": e.new})); }
+    let small = |x: usize| if (x as u64) <= TLC_MAX { json!(x) } else { json!(-9) };
+    // after the counter has been moved beyond 2^31 the values no longer fit TLC: those events are logged by offset
+    let mut base = 0usize;
+    for e in log.iter() {
+        if e.op == "jump" { base = if (e.new as u64) > TLC_MAX / 2 { e.new - 1000 } else { 0 }; out.push(json!({"e": "atomic", "thread": e.thread, "op": "jump", "old": 0, "new": small(e.new - base)})); continue; }
+        out.push(json!({"e": "atomic", "thread": e.thread, "op": e.op, "old": small(e.old - base), "new": small(e.new.wrapping_sub(base))}));
+    }
     let pid = std::process::id().to_string();
     let mut all = std::collections::HashSet::new();
     let mut dup = 0;
@@ -51,7 +92,7 @@ pub fn record_temp(seed: u64, thorough: bool, path: &str) -> Value {
             let pb = std::path::PathBuf::from(p);
             let name = pb.file_name().unwrap().to_str().unwrap().to_string();
             if !all.insert(p.clone()) { dup += 1; }
-            out.push(json!({"e": "name", "thread": t, "count": parse_count(&pb).map(|c| json!(c)).unwrap_or(json!(-1)), "has_part": name.contains(part.as_str()), "has_pid": name.contains(&pid)}));
+            out.push(json!({"e": "name", "thread": t, "path": name, "has_part": name.contains(part.as_str()), "has_pid": name.contains(&pid)}));
         }
     }
     out.write(path);
